@@ -43,6 +43,10 @@ def tv_prog(item):
     rec["meta"] = c[2]
     r = tv.check_pair(text, il, corpus_run.il_subs(fmt), (subs, macs), opts)
     rec.update(r.as_dict())
+    if item.get("bindings") and rec["verdict"] == "equiv":
+        b = binding_check(text, il)
+        if b:
+            rec.update(verdict="binding", detail=b)
     rec["time"] = round(time.time() - t0, 3)
     if item.get("wf", True) and il.strip() != "return NOP();":
         probs = wf.check_body(il, optable(text, [d["code"] for d in subs.values()]), corpus_run.sub_sigs(fmt))
@@ -50,6 +54,40 @@ def tv_prog(item):
     if rec["verdict"] != "equiv" or rec.get("wf"):
         rec["il"] = il
     return rec
+
+
+def binding_check(text, il):
+    """C07: the operand variables the emitted READ block declares are exactly the operands the behaviour names,
+    each resolved with the .new flag of its token (independent token classification vs ISA2REG/EXPLICIT2OP/ALIAS2OP args)."""
+    import re
+    from .cref import lex, classify
+    from .ilparse import parse_body
+    want = set()
+    for k, v in lex(text):
+        if k == "id":
+            try:
+                info = classify(v)
+            except Exception:  # noqa
+                info = None
+            if info and info["kind"] == "reg" and not info.get("pc"):
+                want.add((info["ident"], bool(info["new"]) if info["ident"][0] != "nreg" else None))
+    have = set()
+    decls, ret = parse_body(il)
+    for kind, name, term, ptr in decls:
+        if kind != "op" or term[0] != "call":
+            continue
+        n, a = term[1], term[2]
+        if n == "ISA2REG":
+            have.add((("isa", a[1][1]), a[2] == ("id", "true")))
+        elif n == "EXPLICIT2OP":
+            have.add((("explicit", a[0][1], a[1][1]), a[2] == ("id", "true")))
+        elif n == "ALIAS2OP":
+            have.add((("alias", a[0][1]), a[1] == ("id", "true")))
+        elif n == "NREG2OP":
+            have.add((("nreg", a[1][1]), None))
+    if want != have:
+        return f"operands named by the behaviour {sorted(map(str, want - have))} vs operand slots resolved by the emitted code {sorted(map(str, have - want))}"
+    return ""
 
 
 def run_family(rep, name, programs, item_defaults=None, accept_unsupported_is_violation=True, wf_clauses=(),
@@ -75,7 +113,7 @@ def run_family(rep, name, programs, item_defaults=None, accept_unsupported_is_vi
                     rep.add(key, "violation", cl, " ; ".join(p[1] for p in wfp if p[0] == cl)[:300], **extra)
             else:
                 rep.add(key, "ok")
-        elif v in VIOL:
+        elif v in VIOL or v == "binding":
             rep.add(key, "violation", v, r.get("detail", ""), **extra)
         elif v == "rejected":
             if r.get("ref") == "supported" and have_base and phash(r["c"]) not in rejected_base:
